@@ -95,6 +95,28 @@ inductive Beh
   | api (k : Boundary) (body : Beh)
   | swallow (k : Boundary) (body : Beh)  -- a native that ignores the error / exception returned by a nested call
   | job (body : Beh)                 -- enqueue a promise reaction job
+  -- generators (func.go generator / generatorObject, vm.go suspend / resume); yields at the top level of the body
+  | yieldThen (a b : Beh)            -- body of a generator: run `a`, `yield`, and after the next resume `b`
+  | genNew (slot n : Nat) (f : FnInfo) (body : Beh)   -- `g<slot> = (function*(){ body })(args)`
+  | genNext (slot : Nat)             -- generatorObject.next  (the native frame around it is a `frame native`)
+  | genThrow (slot : Nat)            -- generatorObject.throw
+  | genReturn (slot : Nat)           -- generatorObject._return
+  -- async functions (func.go asyncRunner): an `await` of a settled value at the top level of the body
+  | asyncNew (n : Nat) (f : FnInfo) (body : Beh)   -- `(async function(){ a; await 0; b … })(args)`: asyncRunner.start
+  | asyncResume (id : Nat)           -- promise reaction job: asyncRunner.onFulfilled → generator.next → asyncRunner.step
+deriving Repr, Inhabited
+
+inductive GenState | suspended | executing | completed
+deriving DecidableEq, Repr, Inhabited
+
+/-- a generator object: the rest of its body, the saved execCtx (context + operand-stack size; no try / iterator /
+reference records are live at a top-level yield) and generatorObject.state -/
+structure GenObj where
+  rest : Beh
+  ctx : Ctx
+  stackLen : Nat
+  state : GenState
+  started : Bool          -- false = genStateSuspendedStart
 deriving Repr, Inhabited
 
 structure IterItem where
@@ -132,6 +154,7 @@ structure Vm where
   stashAllocs : Nat
   interrupted : Bool
   jobQueue : List Beh
+  gens : List (Nat × GenObj)       -- heap: generator objects by slot (global variables g<slot>)
   -- ghost state for the correspondence
   probeCount : Nat
   faultAt : Option (Nat × FaultKind)
@@ -157,7 +180,7 @@ def globalStash : List Nat := [0]
 def Vm.fresh (maxDepth : Nat) : Vm :=
   { prg := none, pc := 0, sp := 0, sb := -1, args := 0, stash := globalStash, privEnv := [],
     callStack := [], iterStack := [], refStack := [], tryStack := [], newTarget := 0, result := 0,
-    maxCallStackSize := maxDepth, stashAllocs := 0, interrupted := false, jobQueue := [],
+    maxCallStackSize := maxDepth, stashAllocs := 0, interrupted := false, jobQueue := [], gens := [],
     probeCount := 0, faultAt := none, trace := [] }
 
 /-! ### contexts (vm.go:906-937) -/
@@ -517,7 +540,211 @@ def runProgramOuter (runF : RunF) (lf : Nat) (p : Nat) (b : Beh) (s : Vm) : Res 
     let t := outerPop r'.2
     (o, if t.callStack.length = 0 then leaveAbrupt t else t)
 
+/-! ### generators (func.go: generator.enter / enterNext / step / next / nextThrow, generatorObject.init / next /
+throw / _return; vm.go: suspend / resume) -/
+
+/-- the code up to the next top-level `yield` / `await`, and what follows it -/
+def firstSeg : Beh → Beh
+  | .yieldThen a _ => a
+  | b => b
+
+def restSeg : Beh → Option Beh
+  | .yieldThen _ b => some b
+  | _ => none
+
+def getGen (s : Vm) (slot : Nat) : Option GenObj := (s.gens.find? (·.1 == slot)).map (·.2)
+
+def setGen (s : Vm) (slot : Nat) (g : GenObj) : Vm :=
+  { s with gens := (slot, g) :: s.gens.filter (·.1 != slot) }
+
+/-- the extra frame `context{pc: -2}` that makes the run loop halt after the generator's `ret` -/
+def ctxHalt : Ctx := ⟨none, [], [], 0, 0, -2, 0, 0⟩
+
+/-- generator.enterNext + vm.resume: save the caller (pushCtx, may overflow), push the marker, push the halt frame,
+reinstall the generator's context and operand stack on top of the caller's -/
+def genEnterNext (g : GenObj) (s : Vm) : Option Vm :=
+  (pushCtx s).map fun s1 =>
+    let s2 := pushTryFrame tryPanicMarker (-1) s1
+    let s3 : Vm := { s2 with callStack := s2.callStack ++ [ctxHalt] }
+    { restoreCtx g.ctx s3 with sb := s3.sp + 1, sp := s3.sp + g.stackLen }
+
+/-- a `yield` reached: step1 suspends (`vm.sp = vm.sb - 1`, the halt frame is dropped), then generator.next pops the
+marker and the caller's context -/
+def genLeave (s5 : Vm) : Vm :=
+  popCtx (popTryFrame { s5 with sp := s5.sb - 1, callStack := s5.callStack.dropLast })
+
+/-- the body returned: `ret` (sp := sb; popCtx = the halt frame), `vm.pop()`, then as above -/
+def genFinish (s5 : Vm) : Vm :=
+  let t := popCtx { s5 with sp := s5.sb }
+  popCtx (popTryFrame { t with sp := t.sp - 1 })
+
+def genDone (g : GenObj) : GenObj := { g with state := .completed }
+
+/-- calling a generator function (generatorVmCall → generatorCall → generatorObject.init): enter() saves the caller
+and pushes the marker; vmCall pushes the callee's context; the prologue yields at once, so step() suspends: the
+callee's frame is dropped again, init pops marker and caller context; the object is pushed and dropped by the
+statement.  Either pushCtx may overflow (the second one with the marker already pushed: dropMarkerOnPanic). -/
+def genNew (slot n : Nat) (f : FnInfo) (body : Beh) (s : Vm) : Res :=
+  let s1 : Vm := { s with sp := s.sp + 2 + n }
+  match pushCtx s1 with
+  | none => (.fatal, s1)
+  | some s2 =>
+    let s3 : Vm := { pushTryFrame tryPanicMarker (-1) s2 with prg := none, sb := -1, pc := -2 }
+    match pushCtx s3 with
+    | none => (.fatal, { s3 with tryStack := s3.tryStack.tail })
+    | some _ =>
+      let g : GenObj := { rest := body, ctx := ⟨some f.prg, f.stash, f.privEnv, s3.newTarget, s3.result, 1, 0, n⟩,
+                          stackLen := n + 2, state := .suspended, started := false }
+      let t := popCtx (popTryFrame s3)
+      (.normal, setGen { t with sp := s.sp } slot g)
+
+/-- generatorObject.next → generator.next → step -/
+def genNext (runF : RunF) (slot : Nat) (s : Vm) : Res :=
+  match getGen s slot with
+  | none => (.normal, s)
+  | some g =>
+    match g.state with
+    | .completed => (.normal, s)
+    | .executing => (.thrown, s)                      -- validate(): TypeError "Illegal generator state"
+    | .suspended =>
+      match genEnterNext g s with
+      | none => (.fatal, setGen s slot { g with state := .executing })
+      | some s4' =>
+        let s4 := setGen s4' slot { g with state := .executing, started := true }
+        let seg : Beh := firstSeg g.rest
+        let r := if s4.interrupted then (Outcome.fatal, s4) else runF seg s4
+        match r.1 with
+        | .normal =>
+          (match restSeg g.rest with
+           | some b =>
+             (.normal, setGen (genLeave r.2) slot
+                { rest := b, ctx := saveCtx r.2, stackLen := (r.2.sp - r.2.sb + 1).toNat, state := .suspended, started := true })
+           | none => (.normal, setGen (genFinish r.2) slot (genDone g)))
+        | .exit _ => (.normal, setGen (genFinish r.2) slot (genDone g))     -- `return` inside the generator
+        | .stuck => r
+        | o =>
+          -- uncaught in the generator: handleThrow stops at enterNext's marker; thrown: next() pops marker and caller
+          -- context, generatorObject.step marks it completed and re-panics; uncatchable: step's deferred function drops the
+          -- marker, the state stays `executing`
+          let u := unwindAtMarker runF o r.2
+          (match u.1 with
+           | .thrown => (.thrown, setGen (popCtx u.2) slot (genDone g))
+           | _ => u)
+
+/-- generatorObject.throw → generator.nextThrow: handleThrow inside the resumed activation; with no handler live at a
+top-level yield it stops at enterNext's marker -/
+def genThrow (runF : RunF) (slot : Nat) (s : Vm) : Res :=
+  match getGen s slot with
+  | none => (.thrown, s)
+  | some g =>
+    match g.state with
+    | .completed => (.thrown, s)
+    | .executing => (.thrown, s)
+    | .suspended =>
+      if !g.started then (.thrown, setGen s slot (genDone g))
+      else
+        match genEnterNext g s with
+        | none => (.fatal, setGen s slot { g with state := .executing })
+        | some s4 =>
+          let u := unwindAtMarker runF .thrown s4
+          (u.1, setGen (popCtx u.2) slot (genDone g))
+
+/-- generatorObject._return with no `finally` live at the suspension point -/
+def genReturn (slot : Nat) (s : Vm) : Res :=
+  match getGen s slot with
+  | none => (.normal, s)
+  | some g =>
+    match g.state with
+    | .completed => (.normal, s)
+    | .executing => (.thrown, s)
+    | .suspended =>
+      if !g.started then (.normal, setGen s slot (genDone g))
+      else
+        match genEnterNext g s with
+        | none => (.fatal, setGen s slot { g with state := .executing })
+        | some s4 => (.normal, setGen (genLeave s4) slot (genDone g))
+
+/-- asyncRunner.start: enter() (caller saved, marker), vmCall (callee context, its saved pc = -2 makes `ret` halt), step()
+runs the first segment.  `await`: suspend, the continuation is queued as a promise reaction job (the awaited value is
+settled), marker and caller popped.  End of the body / `return`: `ret`, promise resolved.  Uncaught throw: handleThrow
+stops at the marker, the promise is rejected, `vm.sp = sp - nArgs - 2`, and the call returns NORMALLY with the promise.
+Uncatchable: step's deferred function drops the marker and the panic goes on. -/
+def actEnter (n : Nat) (s : Vm) : Option Vm :=
+  -- the caller pushed callee, this and n arguments; generator.enter(): pushCtx, marker, `prg, sb, pc = nil, -1, -2`
+  (pushCtx { s with sp := s.sp + 2 + n }).map fun s2 =>
+    { pushTryFrame tryPanicMarker (-1) s2 with prg := none, sb := -1, pc := -2 }
+
+def actCall (n : Nat) (f : FnInfo) (s3 : Vm) : Option Vm :=
+  -- baseJsFuncObject.vmCall + the function prologue
+  (pushCtx s3).map fun s4 =>
+    { s4 with args := n, prg := some f.prg, stash := f.stash, privEnv := f.privEnv, pc := 0, sb := s4.sp - n - 1 }
+
+/-- back in asyncRunner.start(): `popCtx` (the marker is already gone); the promise is pushed and dropped by the statement -/
+def actBack (s : Vm) (t : Vm) : Vm := let u := popCtx t; { u with sp := s.sp }
+
+def asyncNew (runF : RunF) (n : Nat) (f : FnInfo) (body : Beh) (s : Vm) : Res :=
+  match actEnter n s with
+  | none => (.fatal, { s with sp := s.sp + 2 + n })
+  | some s3 =>
+    match actCall n f s3 with
+    | none => (.fatal, popTryFrame s3)                 -- dropMarkerOnPanic
+    | some s5 =>
+      let seg : Beh := firstSeg body
+      let r := if s5.interrupted then (Outcome.fatal, s5) else runF seg s5
+      match r.1 with
+      | .normal =>
+        (match restSeg body with
+         | some b =>
+           let id := 1000 + r.2.gens.length
+           let g : GenObj := { rest := b, ctx := saveCtx r.2, stackLen := (r.2.sp - r.2.sb + 1).toNat, state := .suspended, started := true }
+           let t : Vm := { r.2 with sp := r.2.sb - 1, callStack := r.2.callStack.dropLast }       -- suspend
+           let t := setGen t id g
+           (.normal, actBack s (popTryFrame { t with jobQueue := t.jobQueue ++ [.asyncResume id] }))
+         | none => (.normal, actBack s (popTryFrame (popCtx { r.2 with sp := r.2.sb }))))          -- `ret`
+      | .exit _ => (.normal, actBack s (popTryFrame (popCtx { r.2 with sp := r.2.sb })))
+      | .stuck => r
+      | o =>
+        -- uncaught: handleThrow stops at enter()'s marker.  Thrown: the promise is rejected, `vm.sp = sp - nArgs - 2`,
+        -- marker and caller popped, NORMAL return.  Uncatchable: step's deferred function drops the marker; the panic goes on.
+        let u := unwindAtMarker runF o r.2
+        (match u.1 with
+         | .thrown => (.normal, actBack s u.2)
+         | _ => u)
+
+/-- the continuation of an async function, run as a promise reaction job (inside the job's vm.try):
+onFulfilled → generator.next → step → asyncRunner.step.  An uncaught throw rejects the promise: normal return. -/
+def asyncResume (runF : RunF) (id : Nat) (s : Vm) : Res :=
+  match getGen s id with
+  | none => (.normal, s)
+  | some g =>
+    match genEnterNext g s with
+    | none => (.fatal, s)
+    | some s4 =>
+      let seg : Beh := firstSeg g.rest
+      let r := if s4.interrupted then (Outcome.fatal, s4) else runF seg s4
+      match r.1 with
+      | .normal =>
+        (match restSeg g.rest with
+         | some b =>
+           let g' : GenObj := { rest := b, ctx := saveCtx r.2, stackLen := (r.2.sp - r.2.sb + 1).toNat, state := .suspended, started := true }
+           let t := setGen (genLeave r.2) id g'
+           (.normal, { t with jobQueue := t.jobQueue ++ [.asyncResume id] })
+         | none => (.normal, setGen (genFinish r.2) id (genDone g)))
+      | .exit _ => (.normal, setGen (genFinish r.2) id (genDone g))
+      | .stuck => r
+      | o =>
+        let u := unwindAtMarker runF o r.2
+        (match u.1 with
+         | .thrown => (.normal, setGen (popCtx u.2) id (genDone g))      -- promiseCap.reject
+         | _ => u)
+
 /-! ### one layer of the interpreter -/
+
+def seqRes (runF : RunF) (a b : Beh) (s : Vm) : Res :=
+  let r := runF a s
+  match r.1 with
+  | .normal => runF b r.2
+  | o => (o, r.2)
 
 /-- block-exit code of a bracketing frame crossed by a break / return (`s2` = state after the body) -/
 def frameExit (runF : RunF) (k : FrameKind) (ret : Beh) (e : ExitKind) (s2 : Vm) : Res :=
@@ -552,11 +779,7 @@ def apiNode (lf : Nat) (runF : RunF) (k : Boundary) (b : Beh) (s : Vm) : Res :=
 
 def step (lf : Nat) (runF : RunF) : Beh → Vm → Res
   | .skip, s => (.normal, s)
-  | .seq a b, s =>
-    let r := runF a s
-    match r.1 with
-    | .normal => runF b r.2
-    | o => (o, r.2)
+  | .seq a b, s => seqRes runF a b s
   | .probe id, s => probe id s
   | .break_, s => (.exit .brk, s)
   | .return_, s => (.exit .ret, s)
@@ -577,6 +800,13 @@ def step (lf : Nat) (runF : RunF) : Beh → Vm → Res
   | .api k b, s => apiNode lf runF k b s
   | .swallow k b, s => swallowRes k s (apiNode lf runF k b s)
   | .job b, s => (.normal, { s with jobQueue := s.jobQueue ++ [b] })
+  | .yieldThen a b, s => seqRes runF a b s      -- outside a generator activation: plain sequence
+  | .genNew slot n f body, s => genNew slot n f body s
+  | .genNext slot, s => genNext runF slot s
+  | .genThrow slot, s => genThrow runF slot s
+  | .genReturn slot, s => genReturn slot s
+  | .asyncNew n f body, s => asyncNew runF n f body s
+  | .asyncResume id, s => asyncResume runF id s
 
 def run : Nat → RunF
   | 0 => fun _ s => (.fatal, s)
